@@ -1,5 +1,6 @@
 """C05 — evaluating an expression changes nothing but its target (value semantics)."""
 import itertools
+import re
 
 from .. import progen
 from ..core import Case, Check, outcomes_agree
@@ -16,6 +17,127 @@ UNOPS = [("NEG", "-"), ("POS", "+"), ("NOT", "~"), ("BNOT", "not ")]
 BUILTINS1 = ["strlen", "upper", "lower", "trim", "str", "int", "b64enc", "hash", "hex", "chr", "raw", "isnum"]
 
 
+# ---------------------------------------------------------------- storage-level family (Model/StoreX.lean via DrvC05.lean)
+INPLACE = ("concat", "put", "insert", "delete")
+C05_FINDINGS = [
+    # found with the storage model, repaired upstream meanwhile (876bec0 / a40085e) and listed as `fixed` in known_findings.json
+    # (C05.inplace_member_on_handed_through_operand, C04.null_concat_overwrites_literal): the families below are their regression oracle.
+    {"property": "C05", "id": "C05.dangling_element_reference", "status": "known",
+     "site": "blocc/member/member_put.cpp:42 (and every member / operator that holds `Value& val` of an element while evaluating a later operand)",
+     "witness": "t = tab(2, tab(2, 7)); print t.at(0).put(0, t.concat(t).concat(t).count()).count();  -> AddressSanitizer heap-use-after-free",
+     "what": "a reference into a table (t.at(i), u@n) held while a later operand changes the same variable in place dangles: use after free",
+     "why_recorded": "memory-unsafe (C01 class); the model reports hazard oob for every held element reference whose root is written in place (checkHeld); theorem C05.dangling_witness"},
+]
+
+
+def xsrc(e):
+    k = e[0]
+    if k == "item":
+        return "%s@%d" % (xsrc(e[1]), e[2])
+    if k == "setitem":
+        return "%s.set@%d(%s)" % (xsrc(e[1]), e[2], xsrc(e[3]))
+    if k == "lit":
+        return progen.lit_src(e[1])
+    if k == "var":
+        return e[1].lower()
+    if k == "un":
+        return "(%s%s)" % (progen.UNSRC[e[1]], xsrc(e[2]))
+    if k == "bin":
+        return "(%s %s %s)" % (xsrc(e[2]), progen.BINSRC[e[1]], xsrc(e[3]))
+    if k in ("call", "fcall"):
+        return "%s(%s)" % (e[1].lower(), ", ".join(xsrc(a) for a in e[2]))
+    if k == "member":
+        return "%s.%s(%s)" % (xsrc(e[2]), e[1], ", ".join(xsrc(a) for a in e[3]))
+    raise ValueError(e)
+
+
+def xsexp(e):
+    k = e[0]
+    if k == "item":
+        return "(item %s %d)" % (xsexp(e[1]), e[2])
+    if k == "setitem":
+        return "(setitem %s %d %s)" % (xsexp(e[1]), e[2], xsexp(e[3]))
+    if k in ("lit", "var"):
+        return "(%s %s)" % (k, e[1])
+    if k == "un":
+        return "(un %s %s)" % (e[1], xsexp(e[2]))
+    if k == "bin":
+        return "(bin %s %s %s)" % (e[1], xsexp(e[2]), xsexp(e[3]))
+    if k in ("call", "fcall"):
+        return "(%s %s %s)" % (k, e[1], " ".join(xsexp(a) for a in e[2]))
+    if k == "member":
+        return "(member %s %s %s)" % (e[1], xsexp(e[2]), " ".join(xsexp(a) for a in e[3]))
+    raise ValueError(e)
+
+
+def xstmt_src(s):
+    return {"let": lambda: "%s = %s;" % (s[1].lower(), xsrc(s[2])), "do": lambda: "do %s;" % xsrc(s[1]),
+            "return": lambda: "return %s;" % xsrc(s[1])}[s[0]]()
+
+
+def xstmt_sexp(s):
+    return {"let": lambda: "(let %s %s)" % (s[1], xsexp(s[2])), "do": lambda: "(do %s)" % xsexp(s[1]),
+            "return": lambda: "(return %s)" % xsexp(s[1])}[s[0]]()
+
+
+def chain_root(e):
+    """The variable a receiver expression denotes per the manual's reading: the variable itself, an element / item of it,
+    or the result of an in-place member on it. None: a temporary or a non-variable expression."""
+    k = e[0]
+    if k == "var":
+        return e[1]
+    if k == "item" or k == "setitem":
+        return chain_root(e[1])
+    if k == "member" and e[1] in INPLACE + ("at",):
+        return chain_root(e[2])
+    return None
+
+
+def temp_root(e):
+    """receiver forms that denote a temporary (function / constructor result and what is reached from it)"""
+    k = e[0]
+    if k in ("fcall", "call"):
+        return True
+    if k in ("item", "setitem"):
+        return temp_root(e[1])
+    if k == "member" and e[1] in INPLACE + ("at",):
+        return temp_root(e[2])
+    return False
+
+
+def spec_effects(e, acc):
+    """variables an expression may change per the property text (receivers of in-place members); acc['odd'] is set when an
+    in-place member has a receiver that is neither a variable chain nor a temporary chain (pass-through / constant forms)"""
+    k = e[0]
+    subs = []
+    if k == "member":
+        if e[1] in INPLACE:
+            r = chain_root(e[2])
+            if r is not None:
+                acc["vars"].add(r)
+            elif not temp_root(e[2]):
+                acc["odd"] = True
+        subs = [e[2]] + list(e[3])
+    elif k == "setitem":
+        r = chain_root(e[1])
+        if r is not None:
+            acc["vars"].add(r)
+        elif not temp_root(e[1]):
+            acc["odd"] = True
+        subs = [e[1], e[3]]
+    elif k == "item":
+        subs = [e[1]]
+    elif k == "un":
+        subs = [e[2]]
+    elif k == "bin":
+        subs = [e[2], e[3]]
+    elif k in ("call", "fcall"):
+        subs = list(e[2])
+    for x in subs:
+        spec_effects(x, acc)
+    return acc
+
+
 class C05(ProgCheck):
     pid = "C05"
     proof_modules = ["BlocV.Proofs.C05"]
@@ -26,6 +148,242 @@ class C05(ProgCheck):
             "(b) program level: seeded random programs with alias candidates (b = a; f(a); s = s + …; re-evaluation across "
             "loop iterations) compared with the value-semantics interpreter (outcome, output, every variable). "
             "distinct = (expression, operand values/sources) resp. program text.")
+
+    def __init__(self, tier, seed):
+        super().__init__(tier, seed)
+        self.findings = self.findings + [f for f in C05_FINDINGS if not any(g["id"] == f["id"] for g in self.findings)]
+        self.xstats = {"families": {}, "steps_compared": 0, "rejected_by_parser": 0, "hazard_not_manifest": 0, "model_unmodelled": 0,
+                       "receiver_forms": {}, "members": {}}
+
+    # ------------------------------------------------------------ storage-level cases
+    def xcase(self, cid, funcs, defs, runs, meta):
+        """funcs: [(NAME, [PARAM], [stmt])]; defs: [(k, [stmt])] parsed once each, in order; runs: [k] executed in order, a deep dump
+        after each (and one before the first)."""
+        ops = ["new 0"]
+        sx = []
+        if funcs:
+            fsrc = "".join("function %s(%s) return undefined is begin %s end;\n" % (
+                n.lower(), ", ".join(q.lower() for q in ps), " ".join(xstmt_src(st) for st in body)) for n, ps, body in funcs)
+            ops.append("prog 0 " + hx(fsrc))
+            for n, ps, body in funcs:
+                sx.append("(func %s (%s) %s)" % (n, " ".join(ps), " ".join(xstmt_sexp(st) for st in body)))
+        srcs = {}
+        for k, stmts in defs:
+            srcs[k] = " ".join(xstmt_src(st) for st in stmts)
+            ops.append("parse 0 %d %s" % (k, hx(srcs[k])))
+            sx.append("(def %d %s)" % (k, " ".join(xstmt_sexp(st) for st in stmts)))
+        ops.append("dump 0")
+        for k in runs:
+            ops += ["run %d 0" % k, "dump 0"]
+            sx.append("(run %d)" % k)
+        m = dict(meta)
+        m.update({"x": True, "defs": {k: st for k, st in defs}, "runs": list(runs), "src": [srcs[k] for k in runs], "nfun": 1 if funcs else 0})
+        fam = self.xstats["families"]
+        fam[m["family"]] = fam.get(m["family"], 0) + 1
+        return Case(cid, "c05x 200 " + hx(" ".join(sx)), "|".join(ops), m)
+
+    def gen_xcases(self, n0):
+        quick = self.tier == "quick"
+        cases = []
+        n = n0
+        V = lambda x: ("var", x)
+        NUL = L("N:?0")
+        M = lambda name, r, *a: ("member", name, r, list(a))
+        IDF = ("IDF", ["V"], [("return", V("V"))])
+        MUT = ("MUT", ["P"], [("do", M("put", V("P"), I(0), I(99))), ("return", V("P"))])       # changes its parameter in place
+        MUS = ("MUS", ["P"], [("do", M("concat", V("P"), S("!"))), ("return", V("P"))])
+        KST = ("KST", [], [("return", M("concat", ("bin", "ADD", S("abc"), NUL), S("x")))])       # a constant node inside a function body
+        funcs = [IDF, MUT, MUS, KST]
+        setup = [("let", "S", S("ab")), ("let", "T", ("call", "tab", [I(3), I(7)])), ("let", "TT", ("call", "tab", [I(2), ("call", "tab", [I(2), I(7)])])),
+                 ("let", "U", ("call", "tup", [I(1), S("a")])), ("let", "TS", ("call", "tab", [I(2), S("q")])), ("let", "I1", I(5)),
+                 ("let", "TU", ("call", "tab", [I(2), ("call", "tup", [I(1), S("a")])]))]
+
+        def add(family, stmts, runs=3, extra_defs=(), meta=None):
+            nonlocal n
+            n += 1
+            defs = [(0, setup)] + [(1, stmts)] + list(extra_defs)
+            mm = {"family": family}
+            mm.update(meta or {})
+            cases.append(self.xcase("x%d" % n, funcs, defs, [0] + [1] * runs + [k for k, _ in extra_defs], mm))
+
+        # (1) every in-place member x receiver form x receiver type; the statement is run three times
+        recv_forms = {
+            "var": lambda x: x, "plus_null": lambda x: ("bin", "ADD", x, NUL), "null_plus": lambda x: ("bin", "ADD", NUL, x),
+            "idf": lambda x: ("fcall", "IDF", [x]), "mut": lambda x: ("fcall", "MUT", [x]),
+        }
+        typed = {
+            "S": [("concat", [S("x")]), ("concat", [I(65)]), ("put", [I(0), I(66)]), ("insert", [I(1), S("zz")]), ("insert", [I(0), I(67)]), ("delete", [I(0)])],
+            "T": [("concat", [I(1)]), ("concat", [V("T")]), ("put", [I(1), I(8)]), ("put", [I(1), V("I1")]), ("insert", [I(0), I(9)]), ("insert", [I(3), V("T")]), ("delete", [I(2)]), ("delete", [I(5)])],
+            "TS": [("concat", [S("w")]), ("concat", [V("S")]), ("put", [I(0), V("S")]), ("put", [I(1), ("fcall", "IDF", [V("S")])]), ("insert", [I(1), V("S")])],
+            "TT": [("concat", [V("T")]), ("concat", [("fcall", "IDF", [V("T")])]), ("put", [I(0), V("T")]), ("put", [I(1), ("call", "tab", [I(1), I(3)])]), ("delete", [I(0)]), ("insert", [I(2), V("T")])],
+            "TU": [("concat", [V("U")]), ("put", [I(0), ("call", "tup", [I(4), S("b")])]), ("delete", [I(1)])],
+        }
+        for tv, calls in typed.items():
+            for fname, form in recv_forms.items():
+                if fname == "mut" and tv in ("S", "TS", "TU"):
+                    continue
+                for mname, args in calls:
+                    for wrap in ("let", "count"):
+                        e = M(mname, form(V(tv)), *args)
+                        if wrap == "count":
+                            e = M("count", e)
+                        add("inplace", [("let", "R", e)], meta={"recv": fname, "member": mname})
+                        self.xstats["receiver_forms"][fname] = self.xstats["receiver_forms"].get(fname, 0) + 1
+                        self.xstats["members"][mname] = self.xstats["members"].get(mname, 0) + 1
+        # elements / items as receivers (write-through into the variable), nested
+        for e in [M("put", M("at", V("TT"), I(0)), I(1), I(5)), M("concat", M("at", V("TT"), I(1)), I(6)), M("delete", M("at", V("TT"), I(0)), I(0)),
+                  M("put", M("at", ("fcall", "IDF", [V("TT")]), I(0)), I(1), I(5)), M("concat", M("at", V("TS"), I(0)), S("+")),
+                  M("concat", M("at", ("fcall", "IDF", [V("TS")]), I(0)), S("+")), ("setitem", V("U"), 1, I(4)), ("setitem", V("U"), 2, S("zz")),
+                  ("setitem", ("fcall", "IDF", [V("U")]), 1, I(4)), ("setitem", M("at", V("TU"), I(1)), 2, V("S")), ("setitem", V("U"), 1, L("D:4004000000000000")),
+                  ("setitem", V("U"), 3, I(1)), M("concat", ("item", V("U"), 2), S("k")), M("concat", ("item", ("fcall", "IDF", [V("U")]), 2), S("k")),
+                  M("concat", ("item", M("at", V("TU"), I(0)), 2), V("S"))]:
+            add("element_receiver", [("let", "R", e)])
+            add("element_receiver", [("do", e)])
+        # constants as receivers
+        for e in [M("concat", S("abc"), S("x")), M("put", S("abc"), I(0), I(65)), M("insert", S("abc"), I(0), S("x")), M("delete", S("abc"), I(0)),
+                  M("concat", ("bin", "ADD", S("abc"), NUL), S("x")), M("concat", ("bin", "ADD", NUL, S("abc")), S("x")),
+                  M("put", ("bin", "ADD", NUL, S("abc")), I(0), I(65)), M("insert", ("bin", "ADD", S("abc"), NUL), I(0), S("x")),
+                  M("delete", ("bin", "ADD", S("abc"), NUL), I(0)), M("concat", NUL, S("abc")), M("concat", NUL, I(65)), M("concat", NUL, I(0)),
+                  M("concat", NUL, V("S")), M("concat", NUL, V("T")), M("concat", NUL, NUL), ("fcall", "KST", [])]:
+            add("constant_receiver", [("let", "R", e)])
+        # (2) reads through element references: operators writing into operands, count, at on temporaries
+        for e in [("bin", "ADD", M("at", V("T"), I(0)), I(1)), ("bin", "ADD", M("at", ("fcall", "IDF", [V("T")]), I(0)), I(1)),
+                  ("bin", "ADD", M("at", V("TS"), I(0)), S("z")), ("bin", "ADD", M("at", ("fcall", "IDF", [V("TS")]), I(0)), S("z")),
+                  ("bin", "ADD", ("item", V("U"), 2), S("z")), ("bin", "ADD", ("item", ("fcall", "IDF", [V("U")]), 2), S("z")),
+                  ("bin", "MUL", ("item", V("U"), 1), M("at", M("at", V("TT"), I(1)), I(0))), M("at", M("at", V("TT"), I(1)), I(1)), M("at", V("TT"), I(1)),
+                  M("at", ("fcall", "IDF", [V("TT")]), I(1)), M("count", V("T")), M("count", ("fcall", "IDF", [V("T")])), M("count", M("at", V("TT"), I(0))),
+                  M("count", M("at", ("fcall", "IDF", [V("TT")]), I(0))), M("count", V("S")), M("count", V("U")), M("at", V("S"), I(1)), M("at", V("T"), I(3)),
+                  ("item", V("U"), 1), ("item", V("U"), 3), ("item", M("at", V("TU"), I(1)), 2), ("un", "NEG", M("at", V("T"), I(0))),
+                  ("un", "NEG", M("at", ("fcall", "IDF", [V("T")]), I(0))), ("bin", "EQ", V("T"), V("T")), ("bin", "EQ", M("at", V("TT"), I(0)), M("at", V("TT"), I(0))),
+                  ("bin", "ADD", V("S"), V("S")), ("bin", "ADD", ("fcall", "IDF", [V("S")]), V("S")),
+                  # constant nodes as operands of nodes that write into a non-flagged operand (the same node is run three times)
+                  ("bin", "ADD", NUL, V("I1")), ("bin", "ADD", V("I1"), NUL), ("bin", "EQ", NUL, NUL), ("bin", "ADD", I(2), I(3)), ("un", "NEG", I(4)),
+                  ("bin", "ADD", S("p"), S("q")), ("bin", "MUL", I(2), M("count", S("abc"))), ("un", "BNOT", NUL), ("bin", "BAND", NUL, L("B:1"))]:
+            add("element_read", [("let", "R", e)])
+        # the literal `null` / a literal as operand of the same node evaluated again after the OTHER operand changed
+        for e in [("bin", "BIOR", NUL, V("BV")), ("bin", "BAND", NUL, ("un", "BNOT", V("BV"))), ("bin", "BIOR", V("BV"), NUL),
+                  ("bin", "ADD", I(1), V("I1")), ("bin", "ADD", S("p"), V("S"))]:
+            n += 1
+            cases.append(self.xcase("x%d" % n, funcs, [(0, setup + [("let", "BV", L("B:1"))]), (1, [("let", "R", e)]),
+                                                     (2, [("let", "BV", L("B:0")), ("let", "I1", I(6)), ("let", "S", S("zz"))])],
+                                    [0, 1, 1, 2, 1, 1], {"family": "constant_operand"}))
+        # (3) constructors: clone of lvalues, move of temporaries, n evaluations of the element expression
+        for e in [("call", "tab", [I(2), V("S")]), ("call", "tab", [I(2), V("T")]), ("call", "tab", [I(2), ("fcall", "IDF", [V("T")])]), ("call", "tab", [I(0), V("T")]),
+                  ("call", "tab", [I(2), M("at", V("TT"), I(0))]), ("call", "tab", [I(2), ("fcall", "MUT", [V("T")])]), ("call", "tab", [I(3), M("concat", V("S"), S("."))]),
+                  ("call", "tab", []), ("call", "tab", [L("N:i0"), V("S")]), ("call", "tab", [I(-1), V("S")]), ("call", "tab", [I(2), NUL]),
+                  ("call", "tup", [V("S"), V("T")]), ("call", "tup", [("fcall", "IDF", [V("S")]), M("at", V("TT"), I(0)), I(3)]), ("call", "tup", []),
+                  ("call", "tup", [V("U"), V("I1")]), ("call", "tup", [NUL]), ("call", "tup", [M("concat", V("S"), S(".")), V("S")])]:
+            add("construct", [("let", "R", e)], extra_defs=[(2, [("do", M("concat", V("S"), S("#"))), ("do", M("put", V("T"), I(0), I(42)))]), (3, [("let", "R2", V("R"))])])
+        # (4) alias sequences: copy, then a random list of in-place operations on either side, dumps after each
+        ops_of = {
+            "S": lambda v: [M("concat", v, S("x")), M("put", v, I(0), I(66)), M("delete", v, I(0)), M("insert", v, I(0), S("yy"))],
+            "T": lambda v: [M("concat", v, I(1)), M("put", v, I(0), I(8)), M("delete", v, I(0)), M("insert", v, I(0), I(9)), M("concat", v, v)],
+            "TT": lambda v: [M("put", M("at", v, I(0)), I(0), I(5)), M("concat", M("at", v, I(1)), I(6)), M("delete", v, I(0)), M("concat", v, V("T")), M("put", v, I(0), V("T"))],
+            "U": lambda v: [("setitem", v, 1, I(4)), ("setitem", v, 2, S("zz")), M("concat", ("item", v, 2), S("k"))],
+            "TU": lambda v: [("setitem", M("at", v, I(0)), 1, I(4)), M("concat", v, V("U")), M("delete", v, I(0))],
+        }
+        copies = {"assign": lambda a: V(a), "call": lambda a: ("fcall", "IDF", [V(a)]), "tab": lambda a: M("at", ("call", "tab", [I(2), V(a)]), I(1)),
+                  "tup": lambda a: ("item", ("call", "tup", [V(a), I(0)]), 1), "put": None, "mutcall": lambda a: ("fcall", "MUT", [V(a)])}
+        for k in range(60 if quick else 1500):
+            a = self.rng.choice(list(ops_of))
+            how = self.rng.choice([h for h in copies if h != "put" and not (h == "mutcall" and a not in ("T",))])
+            defs = [(1, [("let", "B", copies[how](a))])]
+            runs = [1]
+            for j in range(self.rng.randint(2, 6)):
+                side = self.rng.choice([a, "B"])
+                op = self.rng.choice(ops_of[a](V(side)))
+                defs.append((2 + j, [("do", op)]))
+                runs.append(2 + j)
+                if self.rng.random() < 0.3:
+                    runs.append(2 + j)
+            n += 1
+            cases.append(self.xcase("x%d" % n, funcs, [(0, setup)] + defs, [0] + runs, {"family": "alias_sequence", "copy": how}))
+        # (5) a held element reference whose variable is changed by a later operand (dangling): model = hazard oob
+        for e in [M("put", M("at", V("TT"), I(0)), I(0), M("count", M("concat", M("concat", V("TT"), V("TT")), V("TT")))),
+                  ("bin", "ADD", M("at", M("at", V("TT"), I(1)), I(0)), M("count", M("concat", M("concat", M("concat", V("TT"), V("TT")), V("TT")), V("TT")))),
+                  M("concat", M("at", V("TT"), I(1)), M("count", M("delete", V("TT"), I(0))))]:
+            add("dangling", [("let", "R", e)], runs=1)
+        return cases, n
+
+    def judge_x(self, c, iraw, m, stderr):
+        mout = m.get("model")
+        self.distinct.add(c.model_line)
+        if mout is None or mout == "bad-script":
+            return self.record_violation("storage model gave no answer", c, iraw[:100], m)
+        steps = mout.split("|")
+        if iraw.startswith("crash") or iraw.endswith("diverges"):
+            self.tally(c, iraw, m)
+            hz = [st.split("#")[0].replace("+", " ") for st in steps if st.startswith("hazard")]
+            if hz and iraw.startswith("crash"):      # undefined behaviour of a dangling reference shows up as any sanitizer report / abort
+                f = C05_FINDINGS[0]
+                self.known_hits.setdefault(f["id"], {"what": f["what"], "example": " ".join(c.meta["src"][-1:]), "impl": iraw})
+                return
+            return self.record_violation("crash while running `%s`" % " ".join(c.meta["src"]), c, iraw, m, stderr)
+        parts = iraw.split("|")
+        nrun = len(c.meta["runs"])
+        pro, body = parts[:len(parts) - 2 * nrun - 1], parts[len(parts) - 2 * nrun - 1:]
+        if any(not q.startswith("ok") for q in pro):
+            self.xstats["rejected_by_parser"] += 1
+            self.tally(c, next(q for q in pro if not q.startswith("ok")), m)
+            return
+        strip = lambda v: strip_flags(v[:-2]) + v[-2:]
+        prev = {k: strip(v[2]) for k, v in parse_dump(body[0])["syms"].items()}
+        seen = {}
+        assigned = set()
+        for k, rk in enumerate(c.meta["runs"]):
+            assigned |= {st[1] for st in c.meta["defs"][rk] if st[0] == "let"}
+            ires, idump = body[1 + 2 * k], parse_dump(body[2 + 2 * k])
+            mo, _, md = steps[k].partition("#") if k < len(steps) else ("stop", "", "")
+            if k == len(c.meta["runs"]) - 1 or mo != "ok":
+                self.tally(c, ires, m)
+            if mo == "stop":
+                return
+            if mo.startswith("hazard"):
+                self.xstats["hazard_not_manifest"] += 1
+                return
+            if mo in ("unmodelled", "oof"):
+                self.xstats["model_unmodelled"] += 1
+                return
+            io = "ok" if ires.startswith("ok") else "rerr+" + ires.split()[1] if ires.startswith("rerr") else ires
+            src = c.meta["src"][k]
+            if io != mo:
+                return self.record_violation("step %d `%s`: the implementation gives %s, the storage model %s" % (k, src, ires, mo), c, ires, m)
+            if mo != "ok":
+                return
+            cur = {kk: strip(v[2]) for kk, v in idump["syms"].items()}
+            mod = dict(ent.split("=", 1) for ent in md.split(";")) if md else {}
+            self.xstats["steps_compared"] += 1
+            for name in sorted(set(cur) | set(mod)):
+                if mod.get(name) == "N:?0/l" and (cur.get(name) or "").startswith("N:") and cur[name].endswith("/l") and name not in assigned:
+                    continue        # never assigned so far: the symbol's null carries its compile-time type, which the storage model does not track
+                if cur.get(name) != mod.get(name):
+                    return self.record_violation("step %d `%s`: variable %s is %s in the implementation, %s in the storage model" % (
+                        k, src, name, cur.get(name), mod.get(name)), c, str(cur.get(name)), m)
+            for name, v in cur.items():
+                if not v.endswith("/l"):
+                    return self.record_violation("flag invariant broken: variable %s = %s lacks the LVALUE flag after `%s`" % (name, v, src), c, v, m)
+            # the property itself, on the implementation's dumps: only targets and receiver variables may change
+            stmts = c.meta["defs"][rk]
+            acc = {"vars": set(), "odd": False}
+            reads = set()
+            for st in stmts:
+                ex = st[2] if st[0] == "let" else st[1]
+                spec_effects(ex, acc)
+                reads |= set(re.findall(r"\(var (\w+)\)", xsexp(ex)))
+                if st[0] == "let":
+                    acc["vars"].add(st[1])
+            changed = {nm for nm in cur if prev.get(nm) != cur[nm]}
+            extra = changed - acc["vars"]
+            if extra:
+                return self.record_violation("`%s` changed %s, which is neither its target nor the variable of a storage receiver (contradicts the property)" % (
+                    src, sorted(extra)), c, str(sorted(extra)), m)
+            key = (rk, tuple(sorted((nm, prev.get(nm)) for nm in reads)))
+            post = tuple(sorted((nm, cur[nm]) for nm in acc["vars"] if nm in cur))
+            if key in seen and seen[key] != post:
+                return self.record_violation("re-evaluating `%s` in the same state gives %s then %s: a constant node changed (contradicts the property)" % (
+                    src, seen[key], post), c, str(post), m)
+            seen.setdefault(key, post)
+            prev = cur
 
     def node_case(self, cid, model, expr_src, setup, meta):
         ops = ["new 0", "prog 0 " + hx(IDF)] + setup + ["dump 0"]
@@ -119,10 +477,47 @@ class C05(ProgCheck):
                              ("forall", "%sR" % t.upper(), ("var", b), "desc", [("print", [("var", "%sR" % t.upper())])])]
             n += 1
             cases.append(self.prog_case("c%d" % n, prog + tail, {"family": "random"}))
+        # built-ins that hand their argument's cell through (degenerate / null cases), followed by an in-place member: implementation only
+        # (the storage model has no built-ins); a changed variable other than R is the recorded finding, anything else is compared as usual
+        PT = [('substr(e, 0)', 'E'), ('lsubstr(e, 3)', 'E'), ('rsubstr(e, 3)', 'E'), ('substr(s, null)', 'S'), ('substr(s, 0, null)', 'S'), ('substr(s, int())', 'S'),
+              ('lsubstr(s, null)', 'S'), ('rsubstr(s, null)', 'S'), ('replace(s, null, "a")', 'S'), ('replace(s, str(), "a")', 'S'), ('raw(b)', 'B'),
+              ('subraw(b, null)', 'B'), ('lower(ns)', 'NS'), ('upper(ns)', 'NS'), ('trim(ns)', 'NS'), ('ltrim(ns)', 'NS'), ('rtrim(ns)', 'NS'),
+              ('substr(ns, 1)', 'NS'), ('idf(s)', None), ('str(s)', None), ('lower(s)', None), ('substr(s, 0)', None), ('(s + "")', None)]
+        for recv, victim in PT:
+            for call in ('concat("y")', 'concat(65)', 'put(0, 66)', 'insert(0, "k")', 'delete(0)'):
+                if victim in ("E", "NS") and not call.startswith("concat"):
+                    continue
+                if victim == "B" and call == 'insert(0, "k")':
+                    call = 'insert(0, 75)'
+                n += 1
+                st = "r = %s.%s;" % (recv, call)
+                ops = ["new 0", "prog 0 " + hx(IDF + 's = "ab"; e = ""; ns = str(); b = raw("ab"); r = null;'), "dump 0", "prog 0 " + hx(st), "dump 0"]
+                cases.append(Case("c%d" % n, "", "|".join(ops), {"pt": True, "expr": st, "family": "builtin_passthrough", "victim": victim}))
+        xc, n = self.gen_xcases(n)
+        cases += xc
         self.stats["cases"] = n
+        self.stats["storage_model"] = self.xstats
         return cases
 
     def judge(self, c, iraw, m, stderr):
+        if c.meta.get("x"):
+            return self.judge_x(c, iraw, m, stderr)
+        if c.meta.get("pt"):
+            self.distinct.add(c.meta["expr"])
+            if iraw.startswith("crash") or iraw.endswith("diverges"):
+                return self.record_violation("crash while running `%s`" % c.meta["expr"], c, iraw, m, stderr)
+            parts = iraw.split("|")
+            self.tally(c, parts[3], m)
+            if not parts[1].startswith("ok") or not parts[3].startswith("ok"):
+                return      # rejected or raised: nothing to compare
+            d0, d1 = parse_dump(parts[2])["syms"], parse_dump(parts[4])["syms"]
+            changed = sorted(k for k in d1 if k != "R" and d0.get(k) != d1[k])
+            pt = self.stats.setdefault("builtin_passthrough", {"cases": 0})
+            pt["cases"] += 1
+            if changed:
+                return self.record_violation("`%s` changed %s: the receiver is not a storage expression (a built-in handed its argument through)" % (
+                    c.meta["expr"], changed), c, str(changed), m)
+            return
         if not c.meta.get("node"):
             return ProgCheck.judge(self, c, iraw, m, stderr)
         mout = m.get("model") if not c.meta.get("nomodel") else "unmodelled"
